@@ -1,4 +1,4 @@
-import EdbVerif.Model.Store
+import EdbVerif.Model.StoreSpec
 import Driver.Common
 open EdbVerif EdbVerif.Store EdbVerif.Driver
 
@@ -13,6 +13,10 @@ add <id> <tag> len=<k> <f>=<val> …    (data tuple cut to its first k slots)
 set <id> <f> <val>                    unset <id> <f>
 create <id> <tag> <f>=<val> …         alter <id> <f>=<val> …    cset <id> <f> <val>   cunset <id> <f>   drop <id>
 refs <id>                             (query: get_referrers)
+quiet                                 (answers without the state dump until the next reset)
+v0                                    (trace validation: the current state becomes version 0)
+v <in> <out> <raw operation>          (apply to version <in>, store as version <out>; answer carries
+                                       the guard bit `rawOK` and the touched object's record only)
 val  ::= N | n<name> | r<id> | l<id,…> | l- | a<nat>
 name ::= U<n> | Q<m>.<n> | S<m>.<sm>.<n>.<q>
 ```
@@ -24,6 +28,10 @@ blanks, order irrelevant — the harness sorts).
 structure DSt where
   classes : List Cls := []
   st : State := {}
+  /-- numbered schema versions (trace validation: the engine's operations form a tree) -/
+  vers : List (Nat × State) := []
+  /-- answer without the state dump (used by `v` lines, which print a record instead) -/
+  quiet : Bool := false
 
 def parseName (s : String) : Option Name :=
   let body := (s.drop 1).toString
@@ -122,8 +130,8 @@ def shapeOK (c : Cls) (f : Nat) (v : Val) : Bool :=
 
 def answer (d : DSt) (r : Except Err State) : DSt × String :=
   match r with
-  | .ok s' => ({ d with st := s' }, "ok|" ++ dump s')
-  | .error e => (d, "err " ++ showErr e ++ "|" ++ dump d.st)
+  | .ok s' => ({ d with st := s' }, if d.quiet then "ok|" else "ok|" ++ dump s')
+  | .error e => (d, if d.quiet then "err " ++ showErr e ++ "|" else "err " ++ showErr e ++ "|" ++ dump d.st)
 
 def stepLine (d : DSt) (line : String) : DSt × String :=
   let bad : DSt × String := (d, "bad-op")
@@ -216,4 +224,53 @@ def stepLine (d : DSt) (line : String) : DSt × String :=
     | none => bad
   | _ => bad
 
-def main : IO Unit := runStateful ({} : DSt) stepLine
+/-- everything the state holds about object `x`: data, type, the name-index entries
+    that lead to it, its outgoing reverse-reference edges -/
+def record (s : State) (x : Nat) : String :=
+  let sec (l : List String) : String := " ".intercalate l
+  "|".intercalate [
+    (match mget s.idToData x with | some d => showData d | none => "-"),
+    (match mget s.idToType x with | some c => toString c.tag | none => "-"),
+    sec ((s.nameToId.filter (fun p => p.2 == x)).map fun (n, _) => showName n),
+    sec ((s.globalNameToId.filter (fun p => p.2 == x)).map fun ((c, n), _) => s!"{c.tag}/{showName n}"),
+    sec ((s.shortNameToId.filter (fun p => p.2.2 == x)).map fun (c, n, _) => s!"{c.tag}/{showName n}"),
+    sec ((s.refsTo.filter (fun e => e.src == x)).map fun e => s!"{e.tgt}<{e.cls.tag}.{e.field}") ]
+
+/-- `v <in> <out> <operation…>`: apply a raw operation to version `in`, store the result
+    as version `out`; answer `ok <guard 0|1>|<record of the touched object>` or
+    `err <Class> <guard>|` (guard = `rawOK` of the operation in version `in`). -/
+def stepV (d : DSt) (line : String) : DSt × String :=
+  match (line.splitOn " ").filter (· != "") with
+  | "v" :: vin :: vout :: rest =>
+    match vin.toNat?, vout.toNat? with
+    | some vin, some vout =>
+      match mget d.vers vin with
+      | none => (d, "bad-version")
+      | some sv =>
+        let (d1, out) := stepLine { d with st := sv, quiet := true } (" ".intercalate rest)
+        if out == "bad-op" then (d, "bad-op") else
+        let status := (out.splitOn "|").headD ""
+        let target : Option Nat := match rest with
+          | _ :: id :: _ => id.toNat?
+          | _ => none
+        let guard : String := match rest with
+          | "upd" :: id :: tag :: kvs =>
+            (match id.toNat?, findCls d tag, parseKVs kvs with
+             | some id, some c, some kvs => if rawOK sv (.updateObj id c kvs) then "1" else "0"
+             | _, _, _ => "?")
+          | [op, id, tag] =>
+            (match id.toNat?, findCls d tag with
+             | some id, some c => if op == "del" || op == "dis" then (if rawOK sv (.delete id c) then "1" else "0") else "1"
+             | _, _ => "1")
+          | "delist" :: _ => "0"
+          | _ => "1"
+        if status == "ok" then
+          ({ d with vers := mset d.vers vout d1.st },
+           s!"ok {guard}|" ++ (match target with | some x => record d1.st x | none => ""))
+        else (d, status ++ " " ++ guard ++ "|")
+    | _, _ => (d, "bad-op")
+  | ["v0"] => ({ d with vers := mset d.vers 0 d.st }, "ok")
+  | ["quiet"] => ({ d with quiet := true }, "ok")
+  | _ => stepLine d line
+
+def main : IO Unit := runStateful ({} : DSt) stepV
